@@ -54,16 +54,11 @@ Definition field_ok (g : list (nat * Z)) (f : nat * fm) : bool :=
   | FPred p => match lookup (fst f) g with None => false | Some v => pred_eval p v end
   end.
 
-(* the loop of ExpectedResponse.matches as written: `return expected_value(actual_value)` leaves the
-   loop at the first callable *)
+(* the loop of ExpectedResponse.matches (repaired, F02c): a callable that accepts continues with the next field *)
 Fixpoint fields_impl (fs : list (nat * fm)) (g : list (nat * Z)) : bool :=
   match fs with
   | [] => true
-  | f :: r =>
-      match snd f with
-      | FPred _ => field_ok g f
-      | FEq _ => if field_ok g f then fields_impl r g else false
-      end
+  | f :: r => if field_ok g f then fields_impl r g else false
   end.
 
 (* the property text: "carries the expected field values" = every matcher holds *)
@@ -78,13 +73,6 @@ Definition head_ok (m : matcher) (g : msg) : bool :=
 
 Definition matches (m : matcher) (g : msg) : bool := head_ok m g && fields_impl (m_fields m) (g_fields g).
 Definition matches_spec (m : matcher) (g : msg) : bool := head_ok m g && fields_spec (m_fields m) (g_fields g).
-
-(* no callable matcher is followed by another field (then [matches] = [matches_spec]) *)
-Fixpoint callable_last (fs : list (nat * fm)) : bool :=
-  match fs with
-  | [] => true
-  | f :: r => match snd f with FPred _ => match r with [] => true | _ => false end | FEq _ => callable_last r end
-  end.
 
 (* ---------- waiters ---------- *)
 Inductive kind :=
@@ -141,8 +129,8 @@ Definition wake (e : entry) : entry :=
       (* TimeoutError leaves the `async with timeout` block *)
       match e_kind e with
       | KWait =>
-          (* except TimeoutError as exc: future.set_exception(exc); raise *)
-          if is_pending (e_fut e) then finish e FExc OTimeout else finish e (e_fut e) OInvalidState
+          (* except TimeoutError as exc: if not future.done(): future.set_exception(exc); raise   (repaired, F02b) *)
+          if is_pending (e_fut e) then finish e FExc OTimeout else finish e (e_fut e) OTimeout
       | _ => finish e (e_fut e) OTimeout
       end
     else finish e (e_fut e) OCancelled
@@ -198,23 +186,17 @@ Fixpoint upd (i : nat) (f : entry -> entry) (st : state) : state :=
   end.
 
 (* for expected_response in self._expected_response_futures:
+       if expected_response.done(): continue                      (repaired, F02a)
        if expected_response.matches(connection, message): expected_response.set_result(...)
-   The boolean is "InvalidStateError was raised" (the loop is left; the connection logs
-   'error during callback'). *)
-Fixpoint deliver (g : msg) (st : state) : state * bool :=
-  match st with
-  | [] => ([], false)
-  | e :: r =>
-      if e_in e && matches (e_m e) g then
-        if is_pending (e_fut e) then let '(r', b) := deliver g r in (set_fut e (FResult g) :: r', b)
-        else (e :: r, true)
-      else let '(r', b) := deliver g r in (e :: r', b)
-  end.
+   set_result is only reached on pending futures, so the loop cannot raise InvalidStateError. *)
+Definition complete (g : msg) (e : entry) : entry :=
+  if e_in e && is_pending (e_fut e) && matches (e_m e) g then set_fut e (FResult g) else e.
+Definition deliver (g : msg) (st : state) : state := map (complete g) st.
 
 Definition step (st : state) (ev : event) : state * bool :=
   match ev with
   | Register k m => (st ++ [new_entry k m], false)
-  | Message g => deliver g st
+  | Message g => (deliver g st, false)
   | Timeout i => (upd i ev_timeout st, false)
   | Cancel i => (upd i ev_cancel st, false)
   | DoneCb i => (upd i ev_donecb st, false)
